@@ -110,18 +110,6 @@ Proof.
   - subst. contradiction.
 Qed.
 
-Lemma dedup_keys_nodup l : forall seen, NoDup l -> (forall x, In x l -> ~ In x seen) -> NumExpr.dedup_keys seen l = l.
-Proof.
-  induction l as [|x xs IH]; intros seen Hnd Hdis; simpl; [reflexivity|].
-  destruct (str_in x seen) eqn:E.
-  - apply str_in_In in E. exfalso. apply (Hdis x); [left; reflexivity | exact E].
-  - f_equal. inversion Hnd as [|? ? Hnx Hnd']; subst. apply IH; [exact Hnd'|].
-    intros y Hy [Hyx|Hys]; [subst; contradiction | apply (Hdis y); [right; exact Hy | exact Hys]].
-Qed.
-
-Lemma distinct_nodup l : NoDup l -> distinct l = l.
-Proof. intros H. apply dedup_keys_nodup; [exact H | intros ? _ []]. Qed.
-
 Lemma count_str_notin x l : ~ In x l -> count_str x l = 0.
 Proof.
   induction l as [|y ys IH]; intros H; simpl; [reflexivity|].
@@ -231,19 +219,8 @@ Section Faithful.
   Qed.
 
   (* ---------- numeric goals ---------- *)
-  Fixpoint nexp_nodup (n : nexp) : bool :=
-    match n with
-    | Pddl.NNum _ => true
-    | Pddl.NFl _ args => negb (has_dup_name args)
-    | Pddl.NBin _ a b => nexp_nodup a && nexp_nodup b
-    end.
-
-  Lemma dump_tree_of_nexp n : nexp_nodup n = true -> dump_tree (tree_of_nexp n) = gtree_of_nexp n.
-  Proof.
-    induction n as [x|f args|o a IHa b IHb]; simpl; intros H; [reflexivity| |].
-    - apply negb_true_iff, has_dup_name_NoDup in H. rewrite distinct_nodup by exact H. reflexivity.
-    - apply andb_true_iff in H. destruct H as [Ha Hb]. rewrite IHa, IHb by assumption. reflexivity.
-  Qed.
+  Lemma dump_tree_of_nexp n : dump_tree (tree_of_nexp n) = gtree_of_nexp n.
+  Proof. induction n as [x|f args|o a IHa b IHb]; simpl; [reflexivity | reflexivity | rewrite IHa, IHb; reflexivity]. Qed.
 
   Lemma gtree_eqb_refl t : gtree_eqb t t = true.
   Proof.
@@ -259,10 +236,9 @@ Section Faithful.
   Lemma list_eqb_refl {A} (eqb : A -> A -> bool) (l : list A) : (forall x, eqb x x = true) -> list_eqb eqb l l = true.
   Proof. intros H. induction l as [|x xs IH]; simpl; [reflexivity|]. rewrite H, IH. reflexivity. Qed.
 
-  (* ---------- D07-free problems ---------- *)
+  (* ---------- D07-free initial states: no fluent assignment has a repeated argument ---------- *)
   Definition no_repeats (sp : sproblem) : bool :=
-    forallb (fun fl : atom * string => negb (has_dup_name (snd (fst fl)))) (sp_fluents sp)
-    && forallb (fun g : cmpop * nexp * nexp => match g with (_, l, r) => nexp_nodup l && nexp_nodup r end) (sp_goal_num sp).
+    forallb (fun fl : atom * string => negb (has_dup_name (snd (fst fl)))) (sp_fluents sp).
 
   Theorem built_faithful sp :
     wf_code num dom sp = true -> no_repeats sp = true ->
@@ -270,7 +246,7 @@ Section Faithful.
   Proof.
     intros Hwf Hnr. unfold pdump_equiv, dump_problem, built, spec_dump.
     cbn [pd_name pd_objects pd_facts pd_fluents pd_goal pd_goal_num pb_name pb_objects pb_facts pb_fluents pb_goal pb_goal_num].
-    unfold no_repeats in Hnr. apply andb_true_iff in Hnr. destruct Hnr as [Hfl Hgn].
+    unfold no_repeats in Hnr. pose proof Hnr as Hfl.
     unfold wf_code in Hwf.
     apply andb_true_iff in Hwf; destruct Hwf as [Hwf _]. apply andb_true_iff in Hwf; destruct Hwf as [Hwf _].
     apply andb_true_iff in Hwf; destruct Hwf as [_ Hfluents].
@@ -289,8 +265,7 @@ Section Faithful.
         apply negb_true_iff, has_dup_name_NoDup in Hfl. exact Hfl.
     - rewrite map_map.
       assert (Heq : map (fun g => dump_tree (goal_tree g)) (sp_goal_num sp) = map gtree_of_goal (sp_goal_num sp)).
-      { apply map_ext_in. intros [[c l] r] Hin. rewrite forallb_forall in Hgn. specialize (Hgn _ Hin). simpl in Hgn.
-        apply andb_true_iff in Hgn. destruct Hgn as [Hl Hr]. simpl. rewrite !dump_tree_of_nexp by assumption. reflexivity. }
+      { apply map_ext. intros [[c l] r]. simpl. rewrite !dump_tree_of_nexp. reflexivity. }
       rewrite Heq. apply multiset_eqb_refl.
   Qed.
 End Faithful.
